@@ -355,7 +355,9 @@ func main() {
 		for k := 0; k <= p; k++ {
 			if k < p {
 				both(pow10[k], "str-boundary")
-				both(new(big.Int).Add(pow10[k], one), "str-boundary")
+				if thorough || k <= 1 || k == p-1 || k == p-s {
+					both(new(big.Int).Add(pow10[k], one), "str-boundary")
+				}
 			}
 			both(new(big.Int).Sub(pow10[k], one), "str-boundary")
 		}
@@ -383,7 +385,7 @@ func main() {
 					}
 				}
 				// digits that end / start in zeros around the split point
-				if q.s > 0 && n > 1 {
+				if q.s > 0 && n > 1 && (thorough || rng.Bool()) {
 					z := rng.Range(1, n-1)
 					w := new(big.Int).Mul(randInt(n-z), pow10[z])
 					runFn1(q.p, q.s, w, fmt.Sprintf("str-zeros;p=%d;s=%d;n=%d", q.p, q.s, n))
